@@ -224,6 +224,91 @@ pub fn from_impls(m: &Model, ctx: &mut Ctx, rule: &str) {
     }
 }
 
+/// C01.imports: a name the importing module uses must be in scope there. The closure of Rasn::generate_module that turns one
+/// IMPORTS clause into `use super::<module>::{..}` is evaluated on symbol lists of every spelling class: each imported symbol
+/// is named in the list (types title-cased, values const-cased) or the clause falls back to the wildcard.
+pub fn import_lists(m: &Model, ctx: &mut Ctx, rule: &str) {
+    use crate::eval::{Env, Evaluator, Val};
+    use std::collections::BTreeMap as Map;
+    let Some(f) = m.fns.iter().find(|f| f.name == "generate_module" && f.self_ty.as_deref() == Some("Rasn")) else {
+        ctx.fail_closed(rule, "anchor not found: Rasn::generate_module");
+        return;
+    };
+    struct C { out: Vec<syn::ExprClosure> }
+    impl model::DeepCb for C {
+        fn expr(&mut self, e: &syn::Expr) {
+            if let syn::Expr::Closure(c) = e {
+                let b = tok(&c.body);
+                if b.contains(".types") && b.contains("super::") {
+                    self.out.push(c.clone());
+                }
+            }
+        }
+    }
+    let mut c = C { out: vec![] };
+    model::deep_walk_block(&f.block, &mut c);
+    let Some(cl) = c.out.first() else {
+        ctx.fail_closed(rule, "generate_module: the closure that renders an IMPORTS clause was not found");
+        return;
+    };
+    let syn::Expr::Block(body) = &*cl.body else {
+        ctx.fail_closed(rule, "generate_module: the import closure has no block body");
+        return;
+    };
+    ctx.func(&f.key);
+    let consts = const_resolver(m);
+    let hook = |_: &Evaluator, name: &str, a: &[Val]| -> Option<Result<Val, String>> {
+        match name {
+            ".to_rust_const_case" | ".to_rust_title_case" | ".to_rust_snake_case" => match a.get(1) { Some(Val::Str(n)) => Some(Ok(Val::Sym(format!("{}:{}", &name[9..], n)))), _ => None },
+            ".to_token_stream" if a.len() == 1 => Some(Ok(a[0].clone())),
+            "TokenStream::from_str" => match a.first() { Some(Val::Str(t)) => Some(Ok(Val::Ctor("Ok".into(), vec![Val::Sym(t.clone())], Map::new()))), _ => None },
+            _ => None,
+        }
+    };
+    let ev = Evaluator { consts: &consts, call_hook: &hook, inline: None };
+    // everything but the final quote!: the list that is spliced into the use declaration is then read from the environment
+    let mut stmts = body.block.stmts.clone();
+    let last = stmts.pop();
+    let list_var = last.as_ref().map(|l| tok(l)).and_then(|t| t.split("#(#").nth(1).map(|r| r.split(')').next().unwrap_or("").to_string())).unwrap_or_default();
+    if list_var.is_empty() {
+        ctx.fail_closed(rule, "generate_module: the import closure does not end in `quote!(use super::#module::{ #(#list),* };)`");
+        return;
+    }
+    let block = syn::Block { brace_token: body.block.brace_token, stmts };
+    let pname = cl.inputs.first().map(|p| tok(p)).unwrap_or("import".into());
+    for symbols in [vec!["Port"], vec!["Port", "URL"], vec!["DATE-TIME"], vec!["max-level", "Level"], vec!["T1", "X509-Cert"], vec!["PDU", "port"], vec!["Param{}", "Port"], vec!["MY-CLASS", "Port"]] {
+        let key = format!("symbols:{}", symbols.join(","));
+        ctx.oblige(rule, &key, true);
+        let mut gm = Map::new();
+        gm.insert("module_reference".to_string(), Val::Str("Mod-B".into()));
+        let mut imp = Map::new();
+        imp.insert("global_module_reference".to_string(), Val::Ctor("GlobalModuleReference".into(), vec![], gm));
+        imp.insert("types".to_string(), Val::List(symbols.iter().map(|s| Val::Str(s.to_string())).collect()));
+        let mut cfg = Map::new();
+        cfg.insert("default_wildcard_imports".to_string(), Val::Bool(false));
+        let mut me = Map::new();
+        me.insert("config".to_string(), Val::Ctor("Config".into(), vec![], cfg));
+        let mut env = Env::new();
+        env.insert("self".into(), Val::Ctor("Rasn".into(), vec![], me));
+        env.insert(pname.clone(), Val::Ctor("Import".into(), vec![], imp));
+        match ev.eval_block(&block, &mut env) {
+            Ok(_) => match env.get(&list_var) {
+                Some(Val::List(l)) => {
+                    let names: Vec<String> = l.iter().map(|v| v.show()).collect();
+                    let wildcard = names.iter().any(|n| n == "*");
+                    let missing: Vec<&&str> = symbols.iter().filter(|s| !names.iter().any(|n| n.ends_with(&format!(":{}", s)))).collect();
+                    if !wildcard && !missing.is_empty() {
+                        ctx.violate(rule, "imported-symbol-not-in-scope", &f.file, crate::rules::util::span_line(cl),
+                            &format!("IMPORTS {} FROM Mod-B is rendered as `use super::mod_b::{{{}}}`: {:?} is imported by the ASN.1 module but not by the Rust module, so a use of it is E0425 (an all-capital name such as URL or PDU is a type reference as well as a possible class reference)", symbols.join(", "), names.join(", "), missing));
+                    }
+                }
+                o => ctx.fail_closed(rule, &format!("[{}]: the import list `{}` is {:?}", key, list_var, o.map(|x| x.show()))),
+            },
+            Err(e) => ctx.fail_closed(rule, &format!("[{}]: {}", key, e)),
+        }
+    }
+}
+
 pub fn run(m: &Model, ctx: &mut Ctx) {
     ctx.explanation = "Necessary conditions only. C01.vocab: every capitalised free identifier in type or expression position of every quote! template of the rasn generator is nameable inside the emitted module: exported by the pinned rasn::prelude (parsed from the rasn sources that /repo/Cargo.lock pins), a fixed import of the module wrapper, part of the Rust prelude, or bound locally in the template. \
 C01.attrs: every key the generator emits inside #[rasn(..)] is accepted by the pinned rasn-derive-impl for the position it is emitted at (container / field / variant): writer's and reader's tables agree. \
@@ -384,6 +469,7 @@ C01.defined: wherever constraints_and_type_name renders a component with the `<P
     // the type of a component and the type of its DEFAULT function / value are chosen by two selectors (shared with C06.agree)
     crate::rules::c06::agree(m, ctx, "C01.agree");
     from_impls(m, ctx, "C01.fromimpl");
+    import_lists(m, ctx, "C01.imports");
 }
 
 /// C01.defined: a component's type is rendered by `constraints_and_type_name`, which names an anonymous inner type
